@@ -65,6 +65,20 @@ pub struct PushConfigOidcToken {
     pub service_account_email: String,
 }
 
+/// Notifies the next waiting consumer when dropped while still armed.
+struct WakeupHandoff<'a> {
+    observer: &'a SubscriptionObserver,
+    armed: bool,
+}
+
+impl Drop for WakeupHandoff<'_> {
+    fn drop(&mut self) {
+        if self.armed {
+            self.observer.notify_new_messages_available();
+        }
+    }
+}
+
 impl Subscription {
     /// Creates a new `Subscription`.
     pub fn new(
@@ -125,6 +139,14 @@ impl Subscription {
         max_count: u16,
     ) -> Result<Vec<PulledMessage>, PullMessagesError> {
         let (responder, recv) = oneshot::channel();
+
+        // A consumer typically pulls because it was just woken by the messages-available
+        // signal. If it goes away while its request still waits for room in the actor's
+        // mailbox, the wake-up it consumed must be passed on to the next waiting consumer.
+        let mut handoff = WakeupHandoff {
+            observer: &self.observer,
+            armed: true,
+        };
         self.sender
             .send(SubscriptionRequest::PullMessages {
                 max_count,
@@ -132,6 +154,8 @@ impl Subscription {
             })
             .await
             .map_err(|_| PullMessagesError::Closed)?;
+        handoff.armed = false;
+
         recv.await.map_err(|_| PullMessagesError::Closed)?
     }
 
